@@ -245,6 +245,20 @@ def runRaw (_prop : String) (f : List String) (obsS : String) : Verdict :=
     ⟨obsS == expected, obsS, expected, v, ["metric-backend"], false⟩
   | _ => bad
 
+/-- a flush through the client / a queuing wrapper (with or without handler): the wrapped sink's answer,
+its error included, comes back unchanged; one flush of the sink; no handler call -/
+def runCfl (_prop : String) (f : List String) (obsS : String) : Verdict :=
+  match f with
+  | [_, _via, ans] =>
+    let res := if ans == "a" then "ok" else "err" ++ (ans.drop 1).toString
+    let expected := s!"{res}/1/0"
+    let v : Option (String × String) :=
+      if obsS.startsWith "panic" then some ("C06+C07+C20", "a flush through a wrapper panicked")
+      else if obsS != expected then some ("C06+C07", "a flush through the client / the queuing wrapper did not flush the wrapped sink exactly once and return its answer (its very error) unchanged, without involving the handler")
+      else none
+    ⟨obsS == expected, obsS, expected, v, ["wrapper-flush"], false⟩
+  | _ => bad
+
 /-- handler scenarios (panicking, re-entrant, concurrent handler): two invocations each -/
 def runHdl (_prop : String) (_f : List String) (obsS : String) : Verdict :=
   let expected := "a2,b2,c2"
